@@ -195,6 +195,7 @@ func runC16(p *eng.Prog, r *eng.Report, tier string) {
 		}
 		c.r.Check("C16.1", f, "hex digit ranges", "T: "+name+" covers 0-9, a-f and A-F", f.Pos(), okR, "ranges found: "+strings.Join(sortedKeys(ranges), " "))
 	}
+	c16RoomBeforeFixedCopy(c, "C16.12")
 	ut := c.fn("C16.3", "jid", "unescapeMapping.Transform")
 	us := c.fn("C16.4", "jid", "unescapeMapping.Span")
 	es := c.fn("C16.4", "jid", "escapeMapping.Span")
@@ -803,4 +804,83 @@ func c16TransformersStateless(c *cx, id string) {
 		c.r.CheckNamed(id, "jid."+tn, "methods of the mapping type examined", "E-eff: the methods of the mapping behind a shared package-level transformer were found and scanned for writes to the receiver", obj.Pos(), nm >= 2, "fewer than two methods found")
 	}
 	c.r.Floor(id, "mapping types examined", n, 2)
+}
+
+// c16RoomBeforeFixedCopy (C16.12): an escape sequence is written whole or not
+// at all. copy() truncates silently, so a copy of a k-byte literal into
+// dst[i:] is preceded, on every path since the last change of i (and from the
+// entry), by the edge of a room test len(dst[i:]) >= k. A loop that escapes
+// several characters behind one test writes the second sequence truncated
+// when the destination ends inside the group: the result then depends on the
+// capacity of the caller's buffer.
+func c16RoomBeforeFixedCopy(c *cx, id string) {
+	n := 0
+	for _, name := range []string{"escapeMapping.Transform", "unescapeMapping.Transform"} {
+		f := c.fn(id, "jid", name)
+		if f == nil {
+			continue
+		}
+		g := f.Graph()
+		for _, cl := range f.Calls("builtin.copy") {
+			k := int64(-1)
+			switch src := ast.Unparen(cl.Args[1]).(type) {
+			case *ast.CompositeLit:
+				k = int64(len(src.Elts))
+			default:
+				if sv, ok := f.ConstStr(cl.Args[1]); ok {
+					k = int64(len(sv))
+				}
+			}
+			if k < 2 {
+				continue
+			}
+			sl, ok := ast.Unparen(cl.Args[0]).(*ast.SliceExpr)
+			if !ok || sl.Low == nil {
+				c.r.Check(id, f, "fixed-size copy", "destination is dst[i:]", cl.Pos(), false, "destination of a "+itoaPos(token.Pos(k))+"-byte literal is not a tail slice")
+				continue
+			}
+			iv := g.LocalVar(sl.Low)
+			if iv == nil {
+				c.r.Check(id, f, "fixed-size copy", "destination index is a local", cl.Pos(), false, "index is "+f.Norm(sl.Low, nil))
+				continue
+			}
+			n++
+			cut := eng.Cut{}
+			for _, ce := range g.CondEdges() {
+				for _, a := range ce.Atoms {
+					if !strings.HasPrefix(a.S, "!lt(builtin.len(p0[") || len(a.Vars) == 0 || a.Vars[0] != iv {
+						continue
+					}
+					j := strings.LastIndex(a.S, ",")
+					var room int64
+					okNum := j > 0
+					for _, r := range a.S[j+1 : len(a.S)-1] {
+						if r < '0' || r > '9' {
+							okNum = false
+							break
+						}
+						room = room*10 + int64(r-'0')
+					}
+					if okNum && room >= k {
+						cut[ce.E] = true
+					}
+				}
+			}
+			cp, _ := g.Where(cl)
+			bad := ""
+			if g.Reachable(g.Entry(), cp, cut, nil) {
+				bad = "from the entry"
+			}
+			for _, d := range g.DefsOf(iv) {
+				if d.Kind == eng.DefZero || d.Kind == eng.DefParam {
+					continue
+				}
+				if g.Reachable(g.After(d.At), cp, cut, nil) {
+					bad = "after " + f.Prog.NodeStr(d.Node) + " at " + f.Prog.Pos(d.Node.Pos())
+				}
+			}
+			c.r.Check(id, f, "copy of a fixed sequence into dst", "G: a room test for the whole sequence lies between every change of the output index and the copy", cl.Pos(), bad == "", "the copy is reached "+bad+" without a test that the sequence fits: copy() truncates it")
+		}
+	}
+	c.r.Floor(id, "copies of fixed sequences in the Transform functions", n, 1)
 }
